@@ -220,6 +220,48 @@ fn boundary_sweep(tools: Arc<Tools>, which_sig: bool, n_entries: usize) -> Sweep
     })
 }
 
+/// The 16-byte region trailer in the data store (not reachable by index-field sweeps): every word from boundary values.
+fn region_trailer_sweep(tools: Arc<Tools>) -> Sweep {
+    let tags: [u32; 5] = [0 /* = the header's own region tag */, 1, 61, 1000, u32::MAX];
+    let types: [u32; 4] = [7, 0, 10, u32::MAX];
+    let offsets: [i64; 10] = [i64::MAX /* = correct */, 0, 1, -1, -16, 16, i32::MIN as i64, i32::MIN as i64 + 1, i32::MAX as i64, -(1 << 20)];
+    let counts: [u32; 5] = [16, 0, 1, 0x7fff_ffff, u32::MAX];
+    // the region entry in the index: as laid out / pointing at the start of the store / with count 0
+    let rad = [2u64, tags.len() as u64, types.len() as u64, offsets.len() as u64, counts.len() as u64, 3];
+    let n = product(&rad);
+    let rule = format!("signature and main header laid out like rpm's (region entry first, 16-byte trailer at the end of the store) with every word of the trailer from boundary values: tag ∈ {{own, 1, 61, 1000, 2^32−1}} × type ∈ {{7, 0, 10, 2^32−1}} × offset ∈ {{correct, 0, ±1, ±16, −2^31, −2^31+1, 2^31−1, −2^20}} × count ∈ {{16, 0, 1, 2^31−1, 2^32−1}} × region index entry {{as laid out, offset 0, count 0}} ({} inputs); every read-side API; same oracle", n);
+    Sweep::new("region-trailer", rule, n, move |i, acc| {
+        let d = decode(i, &rad);
+        let sig = d[0] == 1;
+        let own = if sig { 62u32 } else { 63 };
+        let mut h = RawHeader::layout_region(own, &[(1000, Val::str("name")), (1001, Val::str("1.0")), (1004, Val::i18n(&["s"]))]);
+        let tl = h.store.len() - 16;
+        let word = |v: u32| v.to_be_bytes();
+        let correct_off = i32::from_be_bytes(h.store[tl + 8..tl + 12].try_into().unwrap());
+        let tag = if tags[d[1] as usize] == 0 { own } else { tags[d[1] as usize] };
+        let off = if offsets[d[3] as usize] == i64::MAX { correct_off } else { offsets[d[3] as usize] as i32 };
+        h.store[tl..tl + 4].copy_from_slice(&word(tag));
+        h.store[tl + 4..tl + 8].copy_from_slice(&word(types[d[2] as usize]));
+        h.store[tl + 8..tl + 12].copy_from_slice(&off.to_be_bytes());
+        h.store[tl + 12..tl + 16].copy_from_slice(&word(counts[d[4] as usize]));
+        match d[5] {
+            1 => h.entries[0].offset = 0,
+            2 => h.entries[0].count = 0,
+            _ => {}
+        }
+        let lead = RawLead::new("n");
+        let (x, _) = if sig {
+            assemble(&lead, &h, 0, &RawHeader::layout(&[(1000, Val::str("n"))]), b"")
+        } else {
+            assemble(&lead, &RawHeader::new(vec![], vec![]), 0, &h, b"pay")
+        };
+        exercise(&tools, "region-trailer", &x, i, &|| bytes_case(&x, json!({"header": if sig { "signature" } else { "main" }, "trailer": {"tag": tag, "type": types[d[2] as usize], "offset": off, "count": counts[d[4] as usize]}, "region_index_entry": (["as laid out", "offset 0", "count 0"][d[5] as usize])})), acc);
+        if i % 997 == 0 {
+            acc.sample(i, || json!({"header": if sig { "signature" } else { "main" }, "trailer_offset": off}));
+        }
+    })
+}
+
 // ------------------------------------------------------------------ (b) one deviation from valid seeds
 
 const QUICK_VALUES: [u8; 18] = [0x00, 0x01, 0x02, 0x03, 0x04, 0x05, 0x06, 0x07, 0x08, 0x09, 0x0a, 0x10, 0x20, 0x3f, 0x40, 0x7f, 0x80, 0xff];
@@ -447,6 +489,7 @@ pub fn sweeps(ctx: &Ctx) -> Vec<Sweep> {
         v.push(boundary_sweep(tools.clone(), sig, 1));
         v.push(boundary_sweep(tools.clone(), sig, 2));
     }
+    v.push(region_trailer_sweep(tools.clone()));
     let seeds = seeds(ctx, &env);
     for (name, bytes) in &seeds {
         v.push(mutate_sweep(tools.clone(), name, bytes.clone(), ctx.thorough()));
